@@ -92,6 +92,22 @@ Definition is_cleanup_of (id : nat) (e : event) : bool :=
   match e with EvGen u 1 _ => Nat.eqb u id | _ => false end.
 Definition cleanups_of (id : nat) (j : list event) : nat := List.length (filter (is_cleanup_of id) j).
 
+(* how many of the generators with journal id `id` get as far as their yield in
+   `with u1: with u2: ...` (outermost first; a failing setup stops everything further in):
+   that many times the statement demands the code after the yield of `id` to run *)
+Fixpoint reached_count (us : list use_t) (id : nat) : nat :=
+  match us with
+  | [] => 0
+  | u :: us' =>
+      match u_setup u with
+      | SetupOk => (if Nat.eqb (u_id u) id then 1 else 0) + reached_count us' id
+      | _ => 0
+      end
+  end.
+
+Definition reached_count_seq (items : list (list use_t * body_oc)) (id : nat) : nat :=
+  fold_right (fun it acc => reached_count (fst it) id + acc) 0 items.
+
 (* decoration time: only a generator function (sync decorator) / an async generator function
    (async decorator) is accepted *)
 Definition spec_accepts (var : variant) (k : fkind) : bool :=
